@@ -216,7 +216,7 @@ inductive Outcome (α : Type) where
   | done (a : α)
   | panic (what : String)
   | unmod (why : String)
-deriving Repr
+deriving Repr, DecidableEq
 
 /-- sequential semantics: one client, primitives back to back -/
 def Prog.run {α : Type} (c : Ctx) : Prog α → State → State × Outcome α
